@@ -58,4 +58,7 @@ func (s *Store) VerifAbandon() {
 	if s.boltStore != nil {
 		s.boltStore.Close()
 	}
+	if s.raftTn != nil {
+		s.raftTn.Close()
+	}
 }
